@@ -360,8 +360,9 @@ def copy_bn_stats(pit, exp, arch) -> None:
             continue
         keep = ly.features_mask.bool()
         with torch.no_grad():
-            nb.weight.copy_(bn.weight[keep])
-            nb.bias.copy_(bn.bias[keep])
+            if bn.affine and nb.affine:
+                nb.weight.copy_(bn.weight[keep])
+                nb.bias.copy_(bn.bias[keep])
             nb.running_mean.copy_(bn.running_mean[keep])
             nb.running_var.copy_(bn.running_var[keep])
 
